@@ -33,6 +33,10 @@ func main() {
 			c.Worker, _ = strconv.Atoi(parts[0])
 			c.Workers, _ = strconv.Atoi(parts[1])
 			i++
+		case "--replay":
+			if i+1 < len(rest) {
+				os.Exit(checks.Replay(c.ID, rest[i+1]))
+			}
 		default:
 			c.Args = append(c.Args, rest[i])
 		}
